@@ -227,3 +227,183 @@ def run_scenario(sc, chooser=None, seed=0, max_steps=4000):
             "steps": sched.steps, "switches": sched.context_switches, "stuck": stuck,
             "ran": dict(st["ran"]), "errs": dict(st["errs"]), "go": go_now, "nk": nk,
             "cand_counts": list(sched.cand_counts)}
+
+
+# ------------------------------------------------------------------------------------------------------------------------------
+# hostile programs (monitors only; the lock-step model knows none of this): callbacks that raise, error handlers that raise
+# again, callbacks that call back into the signal they hang on, wait(till=...) with signals and with things that are not signals
+# ------------------------------------------------------------------------------------------------------------------------------
+TILL_KINDS = ["T0", "T0", "T1", "False", "None", "Null"]
+
+
+def gen_hostile(rng):
+    n = rng.randint(2, 5)
+    threads = []
+    for _ in range(n):
+        ops = []
+        for _ in range(rng.randint(1, 3)):
+            r = rng.random()
+            if r < 0.2:
+                ops.append(["wait"])
+            elif r < 0.4:
+                ops.append(["wait_till", rng.choice(TILL_KINDS)])
+            elif r < 0.6:
+                ops.append(["go"])
+            elif r < 0.65:
+                ops.append(["bool"])
+            else:
+                raises = rng.random() < 0.4
+                ops.append(["then", {"raises": raises, "hraises": raises and rng.random() < 0.35,
+                                     "nested": rng.choice([None, None, "then", "bool", "go", "remove"])}])
+        threads.append(ops)
+    if not any(o[0] == "go" for t in threads for o in t) and rng.random() < 0.8:
+        threads[rng.randrange(n)].append(["go"])
+    fire = [x for x in ("T0", "T1") if rng.random() < 0.5]
+    return {"hostile": True, "never": False, "threads": threads, "fire": fire, "raises": []}
+
+
+def shape_hostile(sc):
+    def f(o):
+        if o[0] == "then":
+            return "T" + ("!" if o[1]["raises"] else "") + ("!!" if o[1]["hraises"] else "") + ({"then": "t", "bool": "b", "go": "g", "remove": "r"}.get(o[1]["nested"]) or "")
+        if o[0] == "wait_till":
+            return "w[" + o[1] + "]"
+        return {"wait": "w", "go": "g", "bool": "b"}[o[0]]
+    return "hostile:" + "/".join("".join(f(o) for o in t) for t in sc["threads"]) + ":" + "".join(sc["fire"])
+
+
+class HandlerRaises(Exception):
+    pass
+
+
+def run_hostile(sc, chooser=None, seed=0, max_steps=6000):
+    ds.install()
+    ds.reset_globals()
+    from mo_threads import signals
+    from mo_dots import Null
+    sched = ds.Sched(chooser=chooser, seed=seed, max_steps=max_steps)
+    sig = signals.Signal("S")
+    sig.lock = ds.SchedLock()
+    sched.trace(sig, "S")
+    sched.tag(sig.lock, "L")
+    tills = {"T0": signals.Signal("T0"), "T1": signals.Signal("T1"), "False": False, "None": None, "Null": Null}
+    st = {"ran": {}, "errs": {}, "reg": [], "cur": {}, "viol": [], "nextk": 0, "go_raised": 0, "hraise_ran": False}
+    any_hraises = any(o[0] == "then" and o[1]["hraises"] for t in sc["threads"] for o in t)
+
+    def flag():
+        return bool(ds.raw(sig, "_go"))
+
+    def make(spec, nested_child=False):
+        k = st["nextk"]
+        st["nextk"] += 1
+
+        def cb():
+            sched.yield_point(("cb", k))
+            st["ran"][k] = st["ran"].get(k, 0) + 1
+            if not flag():
+                st["viol"].append("C02: callback %d ran while the signal read false" % k)
+            nd = spec.get("nested")
+            if nd == "then":
+                k2, cb2, err2 = make({"raises": False, "hraises": False, "nested": None}, True)
+                sig.then(cb2, err2)          # the signal is true: this one runs at once, on this thread
+                st["reg"].append(k2)
+            elif nd == "bool":
+                if not bool(sig):
+                    st["viol"].append("C01: a callback of the signal read it false")
+            elif nd == "go":
+                sig.go()
+            elif nd == "remove":
+                sig.remove_then(cb)
+            if spec.get("raises"):
+                raise ValueError("callback %d raises" % k)
+
+        def err(cause):
+            sched.yield_point(("err", k))
+            st["errs"][k] = st["errs"].get(k, 0) + 1
+            if spec.get("hraises"):
+                st["hraise_ran"] = True
+                raise HandlerRaises("handler of callback %d raises" % k)
+        return k, cb, err
+
+    def body(ti, ops):
+        def run():
+            for op in ops:
+                st["cur"][ti] = op
+                if op[0] == "wait":
+                    sig.wait()
+                    if not flag():
+                        st["viol"].append("C01: wait() returned on thread %d while the flag is false" % ti)
+                elif op[0] == "wait_till":
+                    tl = tills[op[1]]
+                    sig.wait(till=tl)
+                    fired = isinstance(tl, signals.Signal) and bool(ds.raw(tl, "_go"))
+                    if not flag() and not fired:
+                        st["viol"].append("C01: wait(till=%s) returned on thread %d although neither the signal nor the till is true" % (op[1], ti))
+                elif op[0] == "go":
+                    try:
+                        sig.go()
+                    except HandlerRaises:
+                        st["go_raised"] += 1
+                    if not flag():
+                        st["viol"].append("C01: go() returned with the flag false")
+                elif op[0] == "bool":
+                    bool(sig)
+                elif op[0] == "then":
+                    k, cb, err = make(op[1])
+                    try:
+                        sig.then(cb, err)
+                    except HandlerRaises:
+                        st["go_raised"] += 1
+                    st["reg"].append(k)
+                st["cur"][ti] = None
+        return run
+
+    for ti, ops in enumerate(sc["threads"]):
+        sched.spawn("t%d" % ti, body(ti, ops))
+
+    def env():
+        for x in sc["fire"]:
+            tills[x].go()
+    if sc["fire"]:
+        sched.spawn("env", env)
+    outcome = sched.run()
+    stuck = sorted(int(vt.name[1:]) for vt in sched.stuck if vt.name != "env")
+    viol = st["viol"]
+    go_now = flag()
+    for ti in stuck:
+        op = st["cur"].get(ti)
+        if op is None:
+            continue
+        if op[0] == "wait" and go_now:
+            viol.append("C01: flag is true but thread %d never returned from wait() (lost wake-up)" % ti)
+            if st["errs"]:
+                viol.append("C02: a callback raised and thread %d, parked in wait(), was not released" % ti)
+        elif op[0] == "wait_till":
+            tl = tills[op[1]]
+            fired = isinstance(tl, signals.Signal) and bool(ds.raw(tl, "_go"))
+            if st["hraise_ran"] and isinstance(tl, signals.Signal):
+                # an error handler raised again: go() passes that on to its caller and drops the callbacks that come after,
+                # the triggers behind wait(till=<signal>) among them.  That is what the code as it stands does (the library
+                # registers such a handler itself, threads.py raise_from_none); neither C01 nor C02 quantifies over handlers
+                # that raise, so it is not judged here (DESIGN §10)
+                continue
+            if go_now or fired:
+                viol.append("C01: thread %d never returned from wait(till=%s) although %s is true" % (ti, op[1], "the signal" if go_now else "the till"))
+                if st["errs"] and go_now:
+                    viol.append("C02: a callback raised and thread %d, waiting with a till, was not released" % ti)
+        elif op[0] in ("then", "go", "bool"):
+            viol.append("C02: thread %d never returned from %s() (a callback calling back into its own signal?)" % (ti, op[0]))
+            viol.append("C01: thread %d never returned from %s()" % (ti, op[0]))
+    for k, n in st["ran"].items():
+        if n > 1:
+            viol.append("C02: callback %d ran %d times" % (k, n))
+    if outcome == "done" and go_now and not any_hraises:
+        for k in st["reg"]:
+            if st["ran"].get(k, 0) == 0:
+                viol.append("C02: callback %d was registered, the signal is true and every call has returned, but the callback never ran "
+                            "(%d callbacks raised, all into handlers that returned)" % (k, len(st["errs"])))
+    for vt in sched.vts:
+        if vt.exc is not None:
+            viol.append("unexpected exception in %s: %r" % (vt.name, vt.exc))
+    return {"lines": [], "outcome": outcome, "monitor": viol, "choices": list(sched.choices), "steps": sched.steps,
+            "switches": sched.context_switches, "stuck": stuck, "cand_counts": list(sched.cand_counts)}
